@@ -60,8 +60,8 @@ for d in sorted(glob.glob(f'{V}/seeded/C*/')):
     else:
         seedrows.append(f"| {name} | run failed (exit {rc}) |")
 tab7 = "### 0.7 Seeded changes (`/verif/seeded/<name>/`)\n\n" \
- f"{len(seedrows)} changes written by independent sub-agents that saw only the property text\nand a scratch worktree (three rounds: 19, 14 and 8 changes; the third aimed at the code brought under contract last); each was confirmed here (demo passes without, fails\nwith the change; the 958 tests pass with it) by `seeded/confirm_seed.sh`.\n`seeded/run_seed_par.sh <seed> <property>` applies one in a scratch worktree and runs the\ncheck there; `seeded/run_all_seeds.sh` runs all of them and writes `seeded/results.tsv`.\n" \
- f"Last run: {caught} caught, {missed} missed.\n\n| seed | caught by (first failing obligation) |\n|---|---|\n" + "\n".join(seedrows) + "\n"
+ f"{len(seedrows)} changes written by independent sub-agents that saw only the property text\nand a scratch worktree (four rounds: 19, 14, 8 and 8 changes; the third aimed at the code brought under contract last, the fourth - C02, C03, C04, C05, C09, C14, C16, C17 - written in worktrees from which the contract files had been removed); each was confirmed here (demo passes without, fails\nwith the change; the 958 tests pass with it) by `seeded/confirm_seed.sh`.\n`seeded/run_seed_par.sh <seed> <property>` applies one in a scratch worktree and runs the\ncheck there; `seeded/run_all_seeds.sh` runs all of them and writes `seeded/results.tsv`.\n" \
+ f"Last run: {caught} caught, {missed} missed. The misses: C03-packed-table-alpha and C03-unused-group-alphabet (readHuffmanCodes carries no contract), C15-xmp-size-from-exif (the RIFF size of assembleExtended over the frame loop: section 0.4), C14-still-canvas-unchecked (Muxer.validate carries no contract: the attempt of this session is described in section 0.4).\n\n| seed | caught by (first failing obligation) |\n|---|---|\n" + "\n".join(seedrows) + "\n"
 head=open(f'{V}/design_sec0_head.md').read().replace('@@TABLES@@', tab3)
 tail=open(f'{V}/design_sec0_tail.md').read()
 layout = """### 0.8 Layout as built, and where it deviates from sections 1-9
